@@ -51,7 +51,12 @@ func rewriteCallSites(repo string, pkgs []string, tbl map[string]string, harness
 	if err != nil {
 		return err
 	}
+	seenPkg := map[string]bool{}
 	for _, pkg := range loaded {
+		if seenPkg[pkg.ID] {
+			continue
+		}
+		seenPkg[pkg.ID] = true
 		if len(pkg.Errors) > 0 {
 			return fmt.Errorf("call-site rewrite: %s: %v", pkg.PkgPath, pkg.Errors[0])
 		}
@@ -119,7 +124,17 @@ func rewriteCallSites(repo string, pkgs []string, tbl map[string]string, harness
 			}
 			for alias, p := range needImport {
 				if !astutil.AddNamedImport(pkg.Fset, file, alias, p) {
-					return fmt.Errorf("cannot add import %s %q to %s", alias, p, path)
+					// false = the file imports it under this name already (the module-function
+					// redirect pass adds the same aliases)
+					has := false
+					for _, imp := range file.Imports {
+						if imp.Name != nil && imp.Name.Name == alias && strings.Trim(imp.Path.Value, `"`) == p {
+							has = true
+						}
+					}
+					if !has {
+						return fmt.Errorf("cannot add import %s %q to %s", alias, p, path)
+					}
 				}
 			}
 			// drop imports that are no longer used
